@@ -313,7 +313,8 @@ func keyInPkgs(key string, pkgs []string) bool {
 	for _, p := range pkgs {
 		re := exceptRes[p]
 		if re == nil {
-			re = regexp.MustCompile(`^(?:p_|_L[0-9]*_R)*` + regexp.QuoteMeta(p) + `\.[A-Za-z0-9_]+$`)
+			// p is either a package ("types": every type of it) or one type ("statesync.snapshot")
+			re = regexp.MustCompile(`^(?:p_|_L[0-9]*_R)*(?:` + regexp.QuoteMeta(p) + `\.[A-Za-z0-9_]+|` + regexp.QuoteMeta(p) + `)$`)
 			exceptRes[p] = re
 		}
 		if re.MatchString(parts[1]) {
